@@ -627,6 +627,25 @@ fn build_case(ctl: &[u8], excl: &[String]) -> Built {
                 g.defect = Some(format!("uses of {} and {} under one name", a.join("::"), b.join("::")));
             }
         }
+        8 | 9 => {
+            // a use of something that is not there: the last segment is missing, or a module on the way
+            // is.  The statement does not say whether such a library is refused (either outcome), but
+            // neither the registration nor a script that mentions the alias afterwards may panic.
+            let mut p: Vec<String> = if !targets.is_empty() && g.c.chance(160) { targets[g.c.below(targets.len())].clone() } else { vec![] };
+            match g.c.below(3) {
+                0 if p.len() >= 2 => {
+                    let k = g.c.below(p.len() - 1);
+                    p[k] = "zz_no_mod".into();
+                }
+                1 if !p.is_empty() => {
+                    p.pop();
+                    p.push("zz_missing".into());
+                }
+                _ => p = vec!["zz_missing".into()],
+            }
+            items.push(Spec::Use { paths: vec![p.clone()] });
+            g.defect = Some(format!("use of the missing path {}", p.join("::")));
+        }
         5 => {
             items.push(Spec::Function { name: "needs_unregistered".into(), shape: 1, marker: 5, tag: 998 });
             // remove every registration of marker 5
@@ -687,6 +706,24 @@ impl WorkerState for W {
                 Some(b"use-empty-path") => {
                     let mut rt = Runtime::new();
                     let _ = rt.add(Use::new(vec![vec![]], location!()));
+                    let mut o = Outcome::pass();
+                    o.nontrivial = true;
+                    o
+                }
+                Some(b"use-missing-item") => {
+                    // a use of something that is not there may be refused or accepted, but a script that
+                    // mentions the name afterwards gets a package or a report, not a panic
+                    let mut a = Module::new("a", "", location!()).map_err(|e| format!("{e}")).unwrap();
+                    a.add(Function::new("foo", "", vec![], || -> i32 { 1 }, location!()).unwrap());
+                    let mut rt = Runtime::new();
+                    let mut lib = Library::new();
+                    lib.add(a.into());
+                    lib.add(Use::new(vec![vec!["a".into(), "nothing".into()]], location!()).into());
+                    if rt.add(lib).is_ok() {
+                        eprintln!("@@ctx alias-probe");
+                        let _ = host::compile(&rt, "fn t() -> i32 { nothing() }");
+                        let _ = host::compile(&rt, "fn t() { let x = nothing; }");
+                    }
                     let mut o = Outcome::pass();
                     o.nontrivial = true;
                     o
@@ -810,9 +847,7 @@ impl WorkerState for W {
         let mut any_err = false;
         for add in &b.adds {
             let exp = model.add(add);
-            if exp.as_ref().err().map(|e| e == "AMBIGUOUS").unwrap_or(false) {
-                return Outcome::discard("use alias equal to a name declared in the same scope: not decided by the property");
-            }
+            let ambiguous = exp.as_ref().err().map(|e| e == "AMBIGUOUS").unwrap_or(false);
             eprintln!("@@ctx registration");
             // construction errors (names) and add errors both count as "refused"
             let mut lib = Library::new();
@@ -830,9 +865,49 @@ impl WorkerState for W {
                 real = rt.add(lib).map_err(|e| format!("{e}"));
             }
             o.evals += 1;
-            if exp.as_ref().err().map(|e| e == "EITHER").unwrap_or(false) {
-                // both outcomes are acceptable, a panic is not (it would have been caught as a failure)
-                o.classes.push("either-outcome-no-panic".into());
+            if ambiguous || exp.as_ref().err().map(|e| e == "EITHER").unwrap_or(false) {
+                // both outcomes are acceptable, a panic is not (it would have been caught as a failure):
+                // neither here nor when a script mentions one of the names the use declarations introduce
+                o.classes.push(if ambiguous { "undecided-use-no-panic".into() } else { "either-outcome-no-panic".into() });
+                if real.is_ok() {
+                    o.classes.push("undecided-library-accepted".into());
+                    fn aliases(specs: &[Spec], here: &[String], out: &mut Vec<String>) {
+                        for s in specs {
+                            match s {
+                                Spec::Module { name, children } => {
+                                    let mut h = here.to_vec();
+                                    h.push(name.clone());
+                                    aliases(children, &h, out);
+                                }
+                                Spec::Use { paths } => {
+                                    for p in paths {
+                                        if let Some(l) = p.last() {
+                                            out.push(l.clone());
+                                            if !here.is_empty() {
+                                                out.push(format!("{}.{}", here.join("."), l));
+                                            }
+                                        }
+                                    }
+                                }
+                                _ => {}
+                            }
+                        }
+                    }
+                    let mut names = Vec::new();
+                    aliases(add, &[], &mut names);
+                    names.sort();
+                    names.dedup();
+                    for n in names.iter().take(6) {
+                        for form in [format!("fn zz_probe() {{ {n}(); }}"), format!("fn zz_probe() {{ let zz = {n}; }}"), format!("fn zz_probe(x: {n}) {{ }}"), format!("fn zz_probe() {{ {n}.zz(); }}")] {
+                            eprintln!("@@ctx alias-probe");
+                            // Ok or a report, both fine; a panic is caught by the worker and is a failure
+                            if let Err(e) = host::compile(&rt, &form) {
+                                let _ = e.len();
+                            }
+                            o.evals += 1;
+                        }
+                    }
+                }
                 o.nontrivial = true;
                 return o;
             }
@@ -996,7 +1071,7 @@ impl Prop for C18P {
     }
     fn fixed_cases(&self, _tier: Tier) -> Vec<Case> {
         // the macro route cannot be generated at run time: fixed scenarios
-        vec![vec![b"#!scenario".to_vec(), b"macro-use-groups".to_vec()], vec![b"#!scenario".to_vec(), b"use-nested-path".to_vec()]]
+        vec![vec![b"#!scenario".to_vec(), b"macro-use-groups".to_vec()], vec![b"#!scenario".to_vec(), b"use-nested-path".to_vec()], vec![b"#!scenario".to_vec(), b"use-missing-item".to_vec()]]
     }
     fn worker(&self, excl: &[String]) -> Box<dyn WorkerState> {
         Box::new(W { excl: excl.to_vec() })
